@@ -62,8 +62,14 @@ FIXED = [
  ("C09", "c09:read-after-write-differs:get", "update() invalidates the caches", "cached document: get::<Primitive>(r) after update(r, v) returned the value cached before"),
  ("C09", "c09:retry-after-failed-save-fails", "a failed save leaves the storage unchanged", "save failed on a stream still pointing into the source file; after replacing the object every later save failed with 'invalid xref entry: Promised'"),
  ("C09", "panic:pdf/src/file.rs:*update*", "update() of a free or undefined object number is an error", "update() on a free id hit panic!()"),
+ ("C20", "c20:new-document-stream-length", "a deep-cloned stream gets the /Length of the data it carries", "importing from an AES-encrypted source: copied font-file stream written with the source's stored /Length 96 but 64 bytes of (decrypted) data"),
+ ("C20", "c20:crash:stack-overflow", "importing objects that refer to each other in a cycle", "a page entry referring to << /Self x 0 R >> overflowed the stack in clone_plainref"),
 ]
 OPEN = [
+ ("C20", "c20:resource-missing:ColorSpace", "an imported page whose content names a colour space resource (/CS1 cs) arrives without /ColorSpace: deep_clone_op copies only ExtGState, Font and XObject resources; a repair needs writers for most ColorSpace variants (ColorSpace::to_primitive is unimplemented!() except for three), so it is recorded"),
+ ("C20", "c20:resource-missing:Pattern", "an imported page whose content paints with a pattern (/P1 scn) arrives without /Pattern: deep_clone_op does not copy pattern resources"),
+ ("C20", "c20:resource-missing:Shading", "an imported page whose content uses sh arrives without /Shading: the Resources model has no shading dictionary at all"),
+ ("C20", "c20:resource-missing:Properties", "an imported page whose marked content names a property list (/Tag /MC1 BDC) arrives without /Properties: deep_clone_op does not copy property lists"),
  ("C12", "gate:xref-stream-of-encrypted-file", "reading the cross-reference stream object of an encrypted file (Stream::data / resolve) decrypts it although cross-reference streams are never encrypted; with a stream cache the right data is returned because loading cached it before the decoder existed, without one the call fails ('can't inflate'), so the caches are visible for that one object; a repair needs the xref-stream object ids to be carried out of the xref reader (public signatures change), so it is recorded"),
  ("C06", "gate:encrypt-direct-in-trailer", "a document whose trailer holds the /Encrypt dictionary directly (legal, ISO 32000-1 Table 15) cannot be opened with any password: Trailer.encrypt_dict is Option<RcRef<CryptDict>> and rejects a direct dictionary (UnexpectedPrimitive expected Reference); repairing it changes a public field type and needs writers for CryptDict, so it is recorded, not fixed"),
 ]
